@@ -3,7 +3,8 @@
 (* Record validator (T) for C19.  One record = one session with a real     *)
 (* binary.                                                                 *)
 (*  k = "d": qmail-pop3d <maildir>.  files = the maildir before (sorted by *)
-(*    modification time), cmds = what was sent (verb in upper case, "OTHER"*)
+(*    modification time; mt = rank of each file's time, equal for equal    *)
+(*    times), cmds = what was sent (verb in upper case, "OTHER"            *)
 (*    for a verb this server does not have, "XRM" = the harness removed    *)
 (*    file a[1] behind the server's back), reps = class / first-line text /*)
 (*    multi-line payload of each reply, after = the maildir afterwards,    *)
@@ -13,7 +14,8 @@
 (*    invs[i] = what checker invocations during command i read on          *)
 (*    descriptor 3, ex = scripted behaviour of the checker.                *)
 (* The verdict is the reference model's (Pop3!SessionVerdict, RootVerdict, *)
-(* PopupVerdict): <<clause, index of the failing command>>.                *)
+(* PopupVerdict): <<clause, index of the failing command>>, printed as     *)
+(* <<"BADREC", record, clause, command>>.                                  *)
 (***************************************************************************)
 EXTENDS Pop3, Json, IOUtils
 Recs  == ndJsonDeserialize(IOEnv.RECORDS)
@@ -31,12 +33,12 @@ Verdict(r) ==
   LET v == IF r.k = "p" THEN PopupVerdict(r.cmds, r.reps, r.invs, r.ex, r.host, r.greetc, r.greet)
            ELSE IF r.root = 1 THEN RootVerdict(r.files, r.greet, r.reps, r.after, r.rc)
            ELSE IF r.greet # "ok" THEN <<"NoGreeting", 0>>
-           ELSE SessionVerdict(r.files, r.cmds, r.reps, r.after)
+           ELSE SessionVerdict(r.files, r.mt, r.cmds, r.reps, r.after)
   IN IF v[1] = "" /\ r.tail # 0 THEN <<"UnsolicitedOutput", 0>> ELSE v       \* tail = bytes sent that answer no command
 CheckChunk(c) ==
   LET lo == (c - 1) * Chunk + 1
       hi == IF c * Chunk < NR THEN c * Chunk ELSE NR
-  IN /\ \A i \in lo..hi : LET v == Verdict(Recs[i]) IN v[1] = "" \/ PrintT(<<"BADREC", i, v>>)
+  IN /\ \A i \in lo..hi : LET v == Verdict(Recs[i]) IN v[1] = "" \/ PrintT(<<"BADREC", i, v[1], v[2]>>)
      /\ PrintT(<<"CHECKED", lo, hi>>)
 Inv == k = 0 \/ CheckChunk(k)
 =============================================================================
